@@ -629,7 +629,14 @@ def run(ctx):
 def replay(ctx, path):
     setup_ctx(ctx)
     obj = json.load(open(path))
-    inp = obj["input"] if "input" in obj else obj.get("first_disagreement", {}).get("case")
+    inp = obj.get("input") or (obj.get("first_disagreement") or {}).get("case")
+    if not inp:
+        # a replay that names a broken proof: re-check the theorems
+        ok = ctx.check_theorems()
+        for p in ctx.proof_problems[:5]:
+            print("  proof problem: %s %s" % (p.get("theorem"), p.get("what")))
+        print("replay %s: %s" % (path, "passes" if ok else "still fails"))
+        return 0 if ok else 1
     spec = inp["spec"]
     run_specs(ctx, [spec], nproc=1)
     bad = [f for f in ctx.failures if not ctx._known(f)] or ctx.disagreements
